@@ -1670,7 +1670,10 @@ func (p *Parser) parseAsyncExpression(prec OpPrec, async []byte) IExpr {
 	precLeft := OpPrimary
 	if !p.prevLT && p.tt == FunctionToken {
 		// primary expression
+		prevIn := p.in
+		p.in = true
 		left = p.parseAsyncFuncExpr()
+		p.in = prevIn
 	} else if !p.prevLT && prec <= OpAssign && (p.tt == OpenParenToken || IsIdentifier(p.tt) || p.tt == YieldToken || p.tt == AwaitToken) {
 		// async arrow function expression or call expression
 		if p.tt == AwaitToken || p.yield && p.tt == YieldToken {
@@ -1893,10 +1896,7 @@ func (p *Parser) parseExpression(prec OpPrec) IExpr {
 	case AsyncToken:
 		async := p.data
 		p.next()
-		prevIn := p.in
-		p.in = true
 		left = p.parseAsyncExpression(prec, async)
-		p.in = prevIn
 	case ClassToken:
 		prevIn := p.in
 		p.in = true
